@@ -27,6 +27,28 @@ class Node:
         self.kind = blk.kind if blk is not None else "cut"; self.inl_ret_of = None
 
 
+def strip_trailing_turbofish(callee):
+    """`path::f::<A, impl Iterator<Item = (X, Y)>, impl Fn() -> Z>` -> `path::f` (balanced angle
+    brackets; the `>` of `->` is not a bracket)"""
+    c = callee
+    if not c.endswith(">"):
+        return c
+    depth = 0
+    i = len(c) - 1
+    while i >= 0:
+        ch = c[i]
+        if ch == ">" and not (i > 0 and c[i - 1] == "-"):
+            depth += 1
+        elif ch == "<":
+            depth -= 1
+            if depth == 0:
+                break
+        i -= 1
+    if i >= 2 and c[i - 2:i] == "::":
+        return c[:i - 2]
+    return callee
+
+
 class Graph:
     def __init__(self, funcs, crate_dir, spec):
         self.funcs = funcs; self.crate_dir = crate_dir; self.spec = spec
@@ -68,7 +90,7 @@ class Graph:
         """callee text at a call site -> function name with a body in this crate (or None)."""
         if self.method_index is None:
             self.build_index()
-        c = re.sub(r"::<[^()]*>$", "", callee)  # strip turbofish at the end
+        c = strip_trailing_turbofish(callee)
         if c in self.funcs:
             return c
         m = re.match(r"<(.+) as (.+)>::(\w+)$", c)
